@@ -361,6 +361,30 @@ def check_views(ctx, unit):
                     ok = True
                 ctx.inst("B.view-subscript-bounded", "%s: _pointer[] #%d" % (f.sig, k + 1), ok, n.loc,
                          "subscript %s: %s, L = %s._length (relational bounds analysis)" % (canon(idx), why, ".".join(base[:-1])), f)
+        # element access of ANOTHER view through its (unchecked) operator[]: the index must be inside that view
+        for f in fns:
+            if f.name in UNCHECKED or f.kind in ("ctor", "dtor"):
+                continue
+            ocs = sorted([n for n in f.events() if n.kind == "CXXOperatorCallExpr" and n.callee and n.callee.get("op") == "[]"
+                          and n.callee.get("cls") == VIEW and len(n.args) == 2 and path(n.args[0])], key=lambda n: n.loc)
+            for k, n in enumerate(ocs):
+                owner = path(n.args[0])
+
+                def is_len(x, owner=owner):
+                    x = std_unwrap(x)
+                    px = path(x)
+                    if px and px[-1] == "_length" and px[:-1] == owner and x.kind == "MemberExpr":
+                        return True
+                    if x.kind == "CXXMemberCallExpr" and x.callee and x.callee["n"] == "size" and x.callee.get("cls") == VIEW:
+                        return path(x.child("obj")) == owner
+                    return False
+                from .relbounds import RelBounds
+                rb_ = RelBounds(f, is_len).run()
+                ok, why = rb_.index_ok(n, n.args[1])
+                if ok is None:
+                    ok = True
+                ctx.inst("B.view-subscript-bounded", "%s: %s[] #%d" % (f.sig, ".".join(owner).split("#")[0], k + 1), ok, n.loc,
+                         "subscript %s: %s, L = size of that view (relational bounds analysis)" % (canon(n.args[1]), why), f)
         for f in fns:
             if f.name == "sub_string":
                 pids = {p["d"] for p in f.params()}
@@ -540,16 +564,44 @@ def _clean(tp):
 
 def check_free_after_copies(ctx, unit, rule="O.free-after-copies"):
     """A mutator that builds a new buffer releases the old one only after every copy into the new buffer:
-    the appended view may alias the old buffer (s += s, s += s.sub_string(..))."""
-    ctx.rule(rule, "in basic_string mutators no memcpy can execute after the old buffer was freed (sources may alias it)", 3)
+    the appended view may alias the old buffer (s += s, s += s.sub_string(..)).  A release is a direct
+    free/deallocate of this->_buffer or a call, on *this, of a member that may release it (resize(), ...)."""
+    ctx.rule(rule, "in basic_string mutators no memcpy can execute after the old buffer was released, directly or through a "
+             "member called on *this (sources may alias the old buffer)", 3)
     for rec in recs_of(unit, STR):
-        for f in cls_fns(unit, rec["qn"]):
-            frees = [n for n in f.events() if n.kind == "CXXMemberCallExpr" and n.callee and n.callee["n"] in ("free", "deallocate")
-                     and n.args and path(n.args[0]) == ("this", "_buffer")]
-            cps = [n for n in f.events() if n.is_call() and n.callee and n.callee["n"] in ("memcpy", "__builtin_memcpy")]
-            if not frees or not cps or f.kind == "dtor":
+        fns = cls_fns(unit, rec["qn"])
+
+        def direct_frees(f):
+            return [n for n in f.events() if n.kind == "CXXMemberCallExpr" and n.callee and n.callee["n"] in ("free", "deallocate")
+                    and n.args and path(n.args[0]) == ("this", "_buffer")]
+        may_free = {f.did for f in fns if direct_frees(f) and f.kind != "dtor"}
+        changed = True
+        while changed:
+            changed = False
+            for f in fns:
+                if f.did in may_free or f.kind == "dtor":
+                    continue
+                for n in f.events():
+                    if n.is_call() and n.callee and n.callee.get("did") in may_free and n.kind in ("CXXMemberCallExpr", "CXXOperatorCallExpr"):
+                        obj = n.child("obj") if n.kind == "CXXMemberCallExpr" else (n.args[0] if n.args else None)
+                        if obj is not None and path(obj) == ("this",):
+                            may_free.add(f.did)
+                            changed = True
+                            break
+        for f in fns:
+            if f.kind == "dtor":
                 continue
-            bad = [c for c in cps for fr in frees if f.reaches(fr.id, c.id)]
+            frees = direct_frees(f)
+            for n in f.events():
+                if n.is_call() and n.callee and n.callee.get("did") in may_free and n.kind in ("CXXMemberCallExpr", "CXXOperatorCallExpr"):
+                    obj = n.child("obj") if n.kind == "CXXMemberCallExpr" else (n.args[0] if n.args else None)
+                    if obj is not None and path(obj) == ("this",):
+                        frees.append(n)
+            cps = [n for n in f.events() if n.is_call() and n.callee and n.callee["n"] in ("memcpy", "__builtin_memcpy")]
+            if not frees or not cps:
+                continue
+            bad = [(c, fr) for c in cps for fr in frees if f.reaches(fr.id, c.id)]
             ctx.inst(rule, f.sig, not bad, f.loc,
-                     ("memcpy at %s can run after the old buffer was released" % bad[0].loc) if bad else
+                     ("memcpy at %s can run after the old buffer was released at %s (%s)" % (
+                         bad[0][0].loc, bad[0][1].loc, bad[0][1].callee["n"])) if bad else
                      "%d copies, all before the release of the old buffer" % len(cps), f)
